@@ -193,7 +193,12 @@ impl IdentProvider for DefaultIdentProvider {
     }
 
     fn reset_counter(&mut self) {
-        self.ident_counter = self.first_shared;
+        self.ident_counter = if self.own_temporaries.is_empty() {
+            self.first_shared
+        } else {
+            // still among parameter defaults / member initialisers: keep away from the shared indices
+            self.next_unused
+        };
     }
 
     fn begin_own_temporaries(&mut self) {
